@@ -209,6 +209,19 @@ func judgePhase(run *stats, rr *roundRec, pi int, ph *phaseRec) []finding {
 			add(finding{"more-than-one-refresh-per-verification", fmt.Sprintf("the verification of token{%s} started %d downloads", c.Tok, own[c.ID])})
 		}
 	}
+	// structural: a verification that was seen waiting for a download (its own or one it joined - "concurrent cache
+	// misses share a single download") must not start another one afterwards
+	for _, c := range ph.Calls {
+		if c.ParkedSeq == 0 {
+			continue
+		}
+		for _, d := range ds {
+			if d.Owner == c.ID && d.StartSeq > c.ParkedSeq {
+				add(finding{"second-download-after-shared-one", fmt.Sprintf("the verification of token{%s} was parked waiting for a download (seq %d) and afterwards started download %d (seq %d) itself: concurrent cache misses share a single download and an unknown key costs at most one refresh", c.Tok, c.ParkedSeq, d.Idx, d.StartSeq)})
+				break
+			}
+		}
+	}
 	if own[-1] > 0 {
 		run.Count("events", "download_without_caller_context")
 	}
